@@ -449,7 +449,11 @@ def pack_into_passes(nng, arch, verbose_packing=False):
             # An activation is quantised with the output quantisation of the op it is packed with: that is not possible
             # if that op already has an activation, or carries a rescale factor in its output scale
             if curr_op.type in activation_ops and (
-                next_op.activation is not None or next_op.type in activation_ops or next_op.type in (Op.Abs, Op.LeakyRelu)
+                next_op.activation is not None
+                or next_op.type in activation_ops
+                or next_op.type in (Op.Abs, Op.LeakyRelu)
+                # a memory copy (DMA) cannot apply an activation at all
+                or next_op.type == Op.Memcpy
             ):
                 return False
             # Nor can curr_op be packed with next_op if it only reads a slice of next_op's ofm
